@@ -61,7 +61,7 @@ PROPS["C02"] = dict(
     level_note="Trusts the association-list model and the harness's reading of the Table struct (taken from the "
                "tree's own Table.c by unity inclusion; derived quantities recomputed). Sequences are sampled.",
     quick=[("asan", 16, 40)],
-    thorough=[("asan", 16, 250), ("plain", 16, 600, {"env": {"VH_BIG": "1"}})],
+    thorough=[("asan", 16, 150), ("plain", 16, 400, {"env": {"VH_BIG": "1"}})],
     floors={"quick": {"updates_of_displaced_key": 1, "wrapped_entries_observed": 1,
                       "removals_shifting_back_2_or_more": 1, "rehash_grow": 5, "rehash_shrink": 5,
                       "set_after_resize0": 1, "distinct_slot_counts_seen": 5, "assign_from_tree": 1,
@@ -87,7 +87,7 @@ PROPS["C03"] = dict(
     level_note="Trusts the presence-array model and the validator's reading of the node layout (struct Tree comes "
                "from the tree's own Tree.c; the left/right orientation is observed, not assumed).",
     quick=[("asan", 16, 40)],
-    thorough=[("asan", 16, 400), ("plain", 16, 1200, {"env": {"VH_BIG": "1"}})],
+    thorough=[("asan", 16, 200), ("plain", 16, 500, {"env": {"VH_BIG": "1"}})],
     floors={"quick": dict([(c, 1) for c in _C03_CLASSES] + [
         ("rem_node_with_two_children", 5), ("insert_recolour_propagates", 1), ("insert_rotation", 5),
         ("drained_to_empty", 3), ("rem_root", 10), ("resize_0", 1), ("assign_from_table", 1), ("copies", 1),
